@@ -255,6 +255,10 @@ func (x *exec) callCommonT(st *pstate, cc *ssa.CallCommon, args []Val, argTypes 
 	}
 	c := x.p.ContractOf(callee)
 	if c == nil {
+		if call, isCall := in.(*ssa.Call); isCall && len(bindings) == 0 && x.canInline(st, callee) {
+			x.inlineCall(st, call, callee, args)
+			return nil, true
+		}
 		unsupp("call to %s without contract at %s", FuncKey(callee), x.p.Fset.Position(in.Pos()))
 	}
 	allArgs := args
